@@ -125,8 +125,12 @@ func (w *Writer) recoverTail() error {
 		offset     int64
 		crcStart   int64
 		offsetsLen int
+		indexStart uint64
 	}
 	var prevCommit, finalCommit *commitInfo
+	// indexStart of the last index frame seen. It only counts if a valid commit
+	// frame follows it.
+	var lastIndexStart uint64
 
 	offsets := make([]uint32, 0, 32*1024)
 
@@ -140,7 +144,7 @@ func (w *Writer) recoverTail() error {
 			// So this segment was sealed! (or attempted) keep track of this
 			// indexStart in case it turns out the Seal actually committed completely.
 			// We store the start of the actual array not the frame header.
-			w.writer.indexStart = uint64(offset) + frameHeaderLen
+			lastIndexStart = uint64(offset) + frameHeaderLen
 
 		case FrameCommit:
 			// The payload is not the length field in this case!
@@ -150,6 +154,7 @@ func (w *Writer) recoverTail() error {
 				offset:     offset,
 				crcStart:   0,            // First commit includes the file header
 				offsetsLen: len(offsets), // Track how many entries were found up to this commit point.
+				indexStart: lastIndexStart,
 			}
 			if prevCommit != nil {
 				finalCommit.crcStart = prevCommit.offset + frameHeaderLen
@@ -170,6 +175,8 @@ func (w *Writer) recoverTail() error {
 
 	// Assume that the final commit is good for now and set the writer state
 	w.writer.writeOffset = uint32(finalCommit.offset + frameHeaderLen)
+	// The segment is only sealed if the index frame was covered by that commit.
+	w.writer.indexStart = finalCommit.indexStart
 
 	// Just store what we have for now to ensure the defer doesn't panic we'll
 	// probably update this below.
@@ -223,6 +230,7 @@ func (w *Writer) recoverTail() error {
 	}
 
 	// Last commit was incomplete rewind back to the previous one or start of file
+	w.writer.indexStart = 0
 	if prevCommit == nil {
 		// Init wil re-write the file header so it doesn't matter if it was corrupt
 		// or not!
@@ -230,6 +238,7 @@ func (w *Writer) recoverTail() error {
 	}
 
 	w.writer.writeOffset = uint32(prevCommit.offset + frameHeaderLen)
+	w.writer.indexStart = prevCommit.indexStart
 	offsets = offsets[:prevCommit.offsetsLen]
 	w.offsets.Store(offsets)
 
